@@ -125,7 +125,12 @@ def mutate_attr(
 
     # If not inplace, copy before writing new value for attribute
     if not (inplace or metadata and metadata.do_not_copy):
+        # If the incoming value *is* the object currently stored (e.g.
+        # `update_<attr>()` without changes, or an identity transform), the
+        # copy should hold its own copy of it rather than share it with `obj`.
+        shared = value is getattr(obj, "__dict__", {}).get(attr, MISSING)
         obj = copy.deepcopy(obj)
+        value = obj.__dict__.get(attr, value) if shared else value
 
     # Perform actual mutation
     try:
